@@ -380,8 +380,7 @@ def escape_check(ctx, R, f, ty_rx, what):
         ctx.ok(R, f, "the %s local is moved into the result on every success path" % ty_rx, moves[:3])
 
 
-def c085(ctx):
-    R = "C08.5"
+def c085(ctx, R="C08.5"):
     ctx.declare(R, "a cursor returned to the caller owns the VersionRef that pins the files it will open lazily")
     for key in (KVS + "range_scan", TREE + "range_scan"):
         f = ctx.fn(R, key)
